@@ -75,6 +75,17 @@ package nfsv4
 //@   at call Test#1 assert in-critical-section: held(of.locksLock) == 1
 //@   at call Test#1 assert converted-range: lock.Start == start && lock.End == end && lock.Owner == lockOwner && lock.Type == byteRangeLockType
 
+// Owner identity (NFSv4.1): the lock table compares owners by the address of
+// the lock-owner state's owner field. A lock-owner state created for a
+// protocol lock-owner must therefore be the one registered under that
+// owner's key, so that the same protocol owner always maps to one object.
+//@ func (*sequenceState).opLock
+//@   props C20
+//@   at call OpenedFile).Lock#1 assert lock-owner-state-is-registered:
+//@             typeis(args.Locker, *nfsv4.Locker4_TRUE) ==> cis.lockOwnersByOwner[lockOwnerKey] == los
+//@   at call OpenedFile).Lock#1 assert owner-of-that-state: arg1 == &los.owner
+//@   at call OpenedFile).Lock#1 assert in-critical-section: held(cis.lock) == 1
+
 // ---------------------------------------------------------------------------
 // Reference and share counting (C18)
 
